@@ -586,9 +586,17 @@ func (w *watch) watch(fsw *fsnotify.Watcher, m *sync.Mutex, refresh func() error
 			_ = refresh()
 			m.Unlock()
 
-		case _, ok := <-watch.Errors:
+		case err, ok := <-watch.Errors:
 			if !ok {
 				return
+			}
+			if errors.Is(err, fsnotify.ErrEventOverflow) {
+				// Events were lost: we no longer know which directories we
+				// are really watching, nor what changed in them.
+				m.Lock()
+				w.resync(dirErrors)
+				_ = refresh()
+				m.Unlock()
 			}
 		}
 	}
@@ -610,6 +618,14 @@ func (w *watch) unwatchedDirs(dirs []string, seen map[string]bool) map[string]bo
 		}
 	}
 	return present
+}
+
+// resync re-establishes the watch on every directory after events were lost.
+func (w *watch) resync(dirErrors map[string]error) {
+	for dir := range w.tracked {
+		w.tracked[dir] = false
+	}
+	w.update(dirErrors)
 }
 
 // Update watch with pending/missing or removed directories.
